@@ -27,6 +27,7 @@ type input struct {
 	Tag     string
 	Valid   bool             // must be accepted under every feature set containing Req
 	IfSeed  bool             // ... and only under the feature sets that accept the seed itself (over-long re-encodings)
+	Ref     []byte           // the module this input must behave like (the seed of an over-long re-encoding)
 	Req     api.CoreFeatures // (only with Valid)
 	AllFS   bool             // compile on the optimizing compiler under every accepting feature set
 	ArgSets int              // 1 = zero arguments only, 3 = zero + two boundary vectors
@@ -269,7 +270,7 @@ func (p *plan) expand(c chunk, yield func(in input)) {
 			in := input{B: fixed, Tag: fmt.Sprintf("field:%s:%d(%s@%d)=%s:fixup", s.Name, c.A, f.Kind, f.Off, devNames[v]), ArgSets: 3, Field: c.A, Val: v, Fixup: true}
 			if v == 8 {
 				// an over-long (but within the width limit) LEB with consistent sizes is still a valid module
-				in.Valid, in.Req, in.IfSeed = true, s.Req, true
+				in.Valid, in.Req, in.IfSeed, in.Ref = true, s.Req, true, s.B
 			}
 			yield(in)
 			if len(r) != f.Len {
@@ -315,11 +316,25 @@ func (p *plan) expand(c chunk, yield func(in input)) {
 		if err != nil {
 			panic(err)
 		}
-		var list []struct{ Hex, Tag string }
+		var list []struct {
+			Hex, Tag string
+			Ref      string
+			Valid    bool
+			Req      uint64
+			ArgSets  int
+		}
 		json.Unmarshal(b, &list)
 		for _, e := range list {
 			raw, _ := hex.DecodeString(e.Hex)
-			yield(input{B: raw, Tag: e.Tag, ArgSets: 3})
+			as := e.ArgSets
+			if as == 0 {
+				as = 3
+			}
+			in := input{B: raw, Tag: e.Tag, ArgSets: as, Valid: e.Valid, Req: api.CoreFeatures(e.Req)}
+			if e.Ref != "" {
+				in.Ref, _ = hex.DecodeString(e.Ref)
+			}
+			yield(in)
 		}
 	default:
 		panic("unknown chunk category " + c.Cat)
